@@ -6,5 +6,6 @@ patch=$1; prop=$2; shift 2
 cd /tmp/mut && git checkout -q -- . && git clean -fdq && git apply "$patch" || exit 2
 cd /verif && sed 's|=> /repo|=> /tmp/mut|' go.mod > /tmp/verif_mut.mod && cp go.sum /tmp/verif_mut.sum
 GOFLAGS=-mod=mod go build -modfile=/tmp/verif_mut.mod -tags verif -o /tmp/raftmc_mut ./cmd/raftmc || exit 2
+case "$prop" in C05|C10|C20) GOFLAGS=-mod=mod go test -c -modfile=/tmp/verif_mut.mod -tags verif -vet=off -o /tmp/nodex.test ./nodex || exit 2;; esac
 VERIF_OUT=/tmp/mutout /tmp/raftmc_mut check -prop $prop "$@" 2>&1 | grep -v "^KNOWN-FINDING" | tail -3 | cut -c1-300
 cd /tmp/mut && git checkout -q -- .
